@@ -128,6 +128,8 @@ func (v verificationMethodValidator) verifyThumbprint(method *did.VerificationMe
 	if keyAsJWK == nil {
 		return errors.New("unable to get JWK: no key")
 	}
+	// a "kid" member supplied with the key must not stand in for the thumbprint (AssignKeyID keeps an existing kid)
+	_ = keyAsJWK.Remove(jwk.KeyIDKey)
 	_ = jwk.AssignKeyID(keyAsJWK)
 	if keyAsJWK.KeyID() != method.ID.Fragment {
 		return errors.New("key thumbprint does not match ID")
